@@ -45,7 +45,12 @@ EXPLANATION = (
     "flattening, registration and the look-up in Obj.expand_intermediates are evaluated. R11h: remove_used_terms / "
     "clean_empty on ~45 concrete pools x 5 used-term sets against their specification. R11i: LongItmdVariants.add on a "
     "decision table of stored remainders, signs and duplicates: both stored prefactors carry the sign of the remainder "
-    "mapping. R13d/R13g/R13h/R08a/R19c (owned elsewhere): expansion skeleton, reduce_expr bookkeeping, fraction "
+    "mapping. R11j: _compare_remainder evaluated on a table of remainder pairs over a concrete expression model (a - b combines "
+    "identical terms, factor_eri_parts groups by tensor part up to renaming of the non-fixed indices and renames the complete "
+    "term, factor_denom groups by denominator): identical, negated, numbers, renamed/crossed contracted indices, same tensors "
+    "with another / a missing / a squared denominator, other tensors, exchanged itmd or target indices: the result is +1/-1 "
+    "exactly when remainder = +-reference in value with target and itmd indices fixed (both remainders get exactly these "
+    "fixed indices), None otherwise; vanishing remainders are refused. R13d/R13g/R13h/R08a/R19c (owned elsewhere): expansion skeleton, reduce_expr bookkeeping, fraction "
     "cancellation, ordered substitutions, registry look-ups by default names.")
 ASSUMPTIONS = [
     "the matching logic itself (_compare_terms, _compare_remainder, _map_on_other_terms, minimize_tensor_indices, the search in "
@@ -57,6 +62,11 @@ ASSUMPTIONS = [
     "three itmd-index keys; integral/bracket exponents up to 2 (3 for a non-matching bracket)",
     "which candidate terms/variants are chosen (relevance filter of factor_itmd, prescans, minimal-overlap choice) is only "
     "constrained as far as the value of the result depends on it; factor_itmd's split is compared with its documented filter",
+    "R11j: orbital-energy NUMERATORS are not compared by _compare_remainder (factor_denom groups by denominator only; the library "
+    "documents that numerators are not treated): the two table rows 'same denominator, other numerator' return -1 on the "
+    "current tree although the remainders are not equal up to a sign; they are evaluated and reported as notes, not as "
+    "violations (set NUMERATOR_ROW_IS_VIOLATION once this is registered as a finding)",
+    "R11j: tensors of the remainder model carry no permutational symmetry (renamings are unique), every remainder is a single term",
     "sympy primitives are modelled: sympify, Tuple, _sort_anticommuting_fermions (stable sort by the library's own key "
     "function, which is evaluated), object creation by super().__new__; S.Zero/S.One/S.NegativeOne are pairwise distinct",
 ]
@@ -2038,11 +2048,254 @@ def r11i(ctx):
     ctx.floor(rule, "evaluations of LongItmdVariants.add", n, 60)
 
 
+# ---------------------------------------------------------------------------
+# R11j: _compare_remainder decides equality of two remainders up to a sign (value level)
+#
+# A remainder is modelled concretely: a sum of terms (coefficient, tensor part, orbital-energy denominator, numerator),
+# every part a sorted tuple of factors over index names.  The expression operations the function uses are modelled by
+# what they compute: ``a - b`` combines syntactically identical terms (as sympy does), ``len`` counts terms (0 -> 1),
+# ``factor_eri_parts`` groups terms whose tensor parts agree up to a renaming of the non-fixed indices and applies that
+# renaming to the complete term, ``factor_denom`` groups terms by their denominator.
+
+NUMERATOR_ROW_IS_VIOLATION = False   # see ASSUMPTIONS: the library documents that numerators are not compared
+
+
+def _rn(part, mp):
+    """renaming applied to a part (tuple of factors; a factor is (name, idx...) or a bracket (('+'|'-', idx), ...))"""
+    out = []
+    for f in part:
+        if f and isinstance(f[0], tuple):
+            out.append(tuple(sorted((sg, mp.get(i, i)) for sg, i in f)))
+        else:
+            out.append((f[0],) + tuple(mp.get(i, i) for i in f[1:]))
+    return tuple(sorted(out, key=repr))
+
+
+def _names(part):
+    out = []
+    for f in part:
+        for x in (f if f and isinstance(f[0], tuple) else f[1:]):
+            nm_ = x[1] if isinstance(x, tuple) else x
+            if nm_ not in out:
+                out.append(nm_)
+    return out
+
+
+def _renamings(src, dst, fixed):
+    """renamings of the non-fixed indices (space preserving) that turn the part(s) ``src`` into ``dst``; a list of
+    parts is compared part by part under one common renaming"""
+    import itertools
+    srcs, dsts = (src, dst) if isinstance(src, list) else ([src], [dst])
+    free_s, free_d = [], []
+    for part, acc in [(p_, free_s) for p_ in srcs] + [(p_, free_d) for p_ in dsts]:
+        for x in _names(part):
+            if x not in fixed and x not in acc:
+                acc.append(x)
+    if sorted(space_name(x) for x in free_s) != sorted(space_name(x) for x in free_d):
+        return
+    for perm in itertools.permutations(free_d):
+        if any(space_name(a) != space_name(b) for a, b in zip(free_s, perm)):
+            continue
+        mp = dict(zip(free_s, perm))
+        if all(_rn(a, mp) == _rn(b, {}) for a, b in zip(srcs, dsts)):
+            yield mp
+
+
+def mono(coef, eri=(), denom=(), num=()):
+    return (coef, _rn(eri, {}), _rn(denom, {}), _rn(num, {}))
+
+
+def value_ratio(t, ref, fixed):
+    """+1/-1 if the single terms satisfy t == +-ref for every value of the tensors (renaming of summation indices
+    allowed), else None - the specification of _compare_remainder"""
+    if abs(t[0]) != abs(ref[0]):
+        return None
+    for mp in _renamings([t[1], t[2], t[3]], [ref[1], ref[2], ref[3]], fixed):
+        return 1 if t[0] == ref[0] else -1
+    return None
+
+
+class ExprWorld:
+    """concrete expression records with the operations _compare_remainder uses"""
+
+    def __init__(self, target):
+        self.target = tuple(mk_index(x) for x in target)
+        self.n = 0
+        self.log = []
+
+    def expr(self, terms, fixed=None, tag="expr"):
+        comb = {}
+        for c, e_, d, n_ in terms:
+            comb[(e_, d, n_)] = comb.get((e_, d, n_), 0) + c
+        terms = [(c,) + k for k, c in comb.items() if c != 0]
+        self.n += 1
+        from ..symex import Ext
+        o = Obj(None, f"{tag}#{self.n}")
+        state = {"fixed": fixed}
+        o.attrs.update(_terms=terms, _state=state, assumptions={}, sympy=Ext("S.Zero") if not terms else Obj(None, f"NZ#{self.n}", is_number=False),
+                       terms=[Obj(None, f"{tag}#{self.n}.term{k}", target=self.target) for k in range(max(1, len(terms)))])
+        o.attrs["copy"] = lambda sx, a, kw: self.expr(terms, state["fixed"], tag)
+
+        def set_target(sx, a, kw):
+            state["fixed"] = tuple(nm(x) for x in (a[0] if a else kw.get("target_idx")))
+            self.log.append(("fixed", state["fixed"]))
+        o.attrs["set_target_idx"] = set_target
+
+        def binop(sx, op, left, right, node):
+            if not (isinstance(left, Obj) and isinstance(right, Obj) and "_terms" in left.attrs and "_terms" in right.attrs):
+                return NotImplemented
+            sign = {ast.Sub: -1, ast.Add: 1}.get(type(op))
+            if sign is None:
+                return NotImplemented
+            return self.expr(left.attrs["_terms"] + [(sign * c, e_, d, n_) for c, e_, d, n_ in right.attrs["_terms"]],
+                             left.attrs["_state"]["fixed"], "sum")
+        o.attrs["$binop"] = binop
+        return o
+
+    # ---- models of the library functions
+    def len_(self, sx, a, kw):
+        if len(a) == 1 and isinstance(a[0], Obj) and "_terms" in a[0].attrs:
+            return max(1, len(a[0].attrs["_terms"]))
+        return NotImplemented
+
+    def factor_eri_parts(self, sx, a, kw):
+        x = a[0] if a else kw.get("expr")
+        fixed = x.attrs["_state"]["fixed"]
+        self.log.append(("factor_eri_parts", fixed))
+        if fixed is None:
+            raise AnalysisError("R11j: factor_eri_parts on an expression without fixed (target) indices")
+        groups = []
+        for t in x.attrs["_terms"] or [(0, (), (), ())]:
+            for g in groups:
+                mp = next(_renamings(t[1], g[0][1], fixed), None)
+                if mp is not None:
+                    g.append((t[0], _rn(t[1], mp), _rn(t[2], mp), _rn(t[3], mp)))
+                    break
+            else:
+                groups.append([t])
+        return [self.expr(g, fixed, "eri_group") for g in groups]
+
+    def factor_denom(self, sx, a, kw):
+        x = a[0] if a else kw.get("expr")
+        self.log.append(("factor_denom",))
+        groups = []
+        for t in x.attrs["_terms"] or [(0, (), (), ())]:
+            for g in groups:
+                if g[0][2] == t[2]:
+                    g.append(t)
+                    break
+            else:
+                groups.append([t])
+        return [self.expr(g, x.attrs["_state"]["fixed"], "denom_group") for g in groups]
+
+    @staticmethod
+    def oracle(sx, atom):
+        if atom.op == "cmp" and atom.args[0] in ("is", "=="):
+            names = [str(x.args[0]) for x in atom.args[1:] if isinstance(x, T) and x.op == "sym"]
+            if len(names) == 2 and any(n_.startswith("NZ#") for n_ in names):
+                return False
+        return None
+
+
+def _br(*signed):
+    return tuple((s_[0], s_[1:]) for s_ in signed)
+
+
+def remainder_table():
+    """(name, remainder term, reference term) - fixed indices: targets i, j and itmd indices a, b"""
+    Z = ("Z", "i", "j", "a", "b")
+    D1, D2 = _br("+i", "-a"), _br("+j", "-b")
+    rows = [
+        ("identical", mono(1, [Z], [D1]), mono(1, [Z], [D1])),
+        ("negated", mono(-1, [Z], [D1]), mono(1, [Z], [D1])),
+        ("identical numbers", mono(1), mono(1)),
+        ("negated numbers", mono(-1), mono(1)),
+        ("no fraction", mono(1, [Z]), mono(1, [Z])),
+        ("contracted names", mono(1, [("X", "i", "k"), ("Y", "k", "c", "a")], [_br("+k", "-c"), D2]),
+         mono(1, [("X", "i", "l"), ("Y", "l", "d", "a")], [_br("+l", "-d"), D2])),
+        ("contracted names, negated", mono(-1, [("X", "i", "k"), ("Y", "k", "c", "a")], [_br("+k", "-c")]),
+         mono(1, [("X", "i", "l"), ("Y", "l", "d", "a")], [_br("+l", "-d")])),
+        ("contracted names crossed", mono(1, [("X", "i", "k"), ("Y", "j", "l")], [_br("+k", "-a"), _br("+l", "+k", "-b")]),
+         mono(1, [("X", "i", "l"), ("Y", "j", "k")], [_br("+l", "-a"), _br("+k", "+l", "-b")])),
+        ("same tensors, other denominator", mono(1, [Z], [D1]), mono(-1, [Z], [D2])),
+        ("same tensors, other denominator (same sign)", mono(1, [Z], [D1]), mono(1, [Z], [D2])),
+        ("same tensors, denominator on other contracted index", mono(1, [("X", "i", "k"), ("Y", "k", "l", "a")], [_br("+k", "-a")]),
+         mono(1, [("X", "i", "k"), ("Y", "k", "l", "a")], [_br("+l", "-a")])),
+        ("same tensors, one without denominator", mono(1, [Z], [D1]), mono(1, [Z])),
+        ("same tensors, squared denominator", mono(1, [Z], [D1, D1]), mono(-1, [Z], [D1])),
+        ("different tensors", mono(1, [Z], [D1]), mono(1, [("W", "i", "j", "a", "b")], [D1])),
+        ("different tensors, negated", mono(-1, [("X", "i", "k"), ("Y", "k", "a")]), mono(1, [("X", "i", "k"), ("X", "k", "a")])),
+        ("itmd index exchanged", mono(1, [("X", "i", "a"), ("Y", "j", "b")]), mono(1, [("X", "i", "b"), ("Y", "j", "a")])),
+        ("target index exchanged", mono(1, [("X", "i", "k"), ("Y", "j", "k")]), mono(-1, [("X", "j", "k"), ("Y", "i", "k")])),
+        ("contracted versus itmd index", mono(1, [("X", "i", "k"), ("Y", "k", "j")]), mono(1, [("X", "i", "a"), ("Y", "a", "j")])),
+    ]
+    numer = [
+        ("same denominator, other numerator", mono(1, [Z], [D1], [_br("+i")]), mono(1, [Z], [D1], [_br("+j")])),
+        ("same denominator, other numerator (sum)", mono(1, [Z], [D1], [_br("+i", "+j")]), mono(-1, [Z], [D1], [_br("+a", "+b")])),
+        ("same numerator", mono(-1, [Z], [D1], [_br("+i", "+j")]), mono(1, [Z], [D1], [_br("+i", "+j")])),
+    ]
+    return rows, numer
+
+
+def r11j(ctx):
+    """_compare_remainder(remainder, ref, itmd_indices) returns +1/-1 exactly when remainder == +-ref in value with the
+    target and itmd indices fixed, and None otherwise"""
+    rule = "R11j"
+    fn = ctx.model.fn(FI + "_compare_remainder")
+    fixed = ("i", "j", "a", "b")
+    rows, numer = remainder_table()
+    n = 0
+    for name, t, ref in rows + numer:
+        w = ExprWorld("ij")
+        hooks = {"factor_eri_parts": w.factor_eri_parts, "factor_denom": w.factor_denom, "len": w.len_}
+        sx = Symex(ctx.model, inline=lambda q: q.split(":")[-1] not in ("factor_eri_parts", "factor_denom"), hooks=hooks,
+                   what=f"_compare_remainder[{name}]", oracle=w.oracle, obj_identity=True)
+        outs = sx.run(fn, lambda: dict(remainder=w.expr([t], None, "remainder"), ref_remainder=w.expr([ref], None, "reference"),
+                                       itmd_indices=tuple(mk_index(x) for x in "ab")))
+        want = value_ratio(t, ref, fixed)
+        what = f"_compare_remainder[{name}]"
+        n += 1
+        got = outs[0].value if len(outs) == 1 and outs[0].kind == "return" else f"<{outs[:2]}>"
+        ok = len(outs) == 1 and outs[0].kind == "return" and got == want and type(got) is type(want)
+        why = (f"{what}: returns {got!r} for the remainder {t} and the stored remainder {ref}; in value the remainder is "
+               f"{'neither the stored remainder nor its negative' if want is None else ('+' if want == 1 else '-') + ' the stored remainder'}"
+               f" (expected {want!r})")
+        if want is None and got in (1, -1):
+            why += (": matches with different remainders are pooled under one remainder and a long intermediate is factored from terms "
+                    "that do not share a common factor")
+        in_numer = any(name == r[0] for r in numer)
+        if in_numer and not ok and not NUMERATOR_ROW_IS_VIOLATION:
+            ctx.note(f"R11j (not counted): {why}")
+            ctx.ok(rule, fn, f"{what}: orbital-energy numerators are not compared (documented limitation, reported as a note)",
+                   key=f"remainder {name}")
+            continue
+        ctx.check(rule, fn, ok, f"{what} -> {want!r}", why, key=f"remainder {name}")
+        if ok and any(x[0] == "fixed" for x in w.log):
+            fx = [x[1] for x in w.log if x[0] == "fixed"]
+            ctx.check(rule, fn, all(tuple(f_) == fixed for f_ in fx) and len(fx) >= 2,
+                      f"{what}: target and itmd indices fixed in both remainders",
+                      f"{what}: the indices fixed during the comparison are {fx}, expected {fixed} in both remainders", key=f"fixed {name}")
+    ctx.floor(rule, "remainder pairs evaluated", n, 18)
+    # refusals
+    for tag, mk_args, exc in (
+            ("vanishing remainder", lambda w: dict(remainder=w.expr([], None, "remainder"), ref_remainder=w.expr([mono(1)], None, "reference")), "ValueError"),
+            ("vanishing reference", lambda w: dict(remainder=w.expr([mono(1)], None, "remainder"), ref_remainder=w.expr([], None, "reference")), "ValueError")):
+        w = ExprWorld("ij")
+        sx = Symex(ctx.model, inline=lambda q: q.split(":")[-1] not in ("factor_eri_parts", "factor_denom"),
+                   hooks={"factor_eri_parts": w.factor_eri_parts, "factor_denom": w.factor_denom, "len": w.len_},
+                   what=f"_compare_remainder[{tag}]", oracle=w.oracle, obj_identity=True)
+        outs = sx.run(fn, lambda: dict(itmd_indices=tuple(mk_index(x) for x in "ab"), **mk_args(w)))
+        ctx.check(rule, fn, outs and all(o.kind == "raise" and o.exc == exc for o in outs), f"_compare_remainder: {tag} refused",
+                  f"_compare_remainder: {tag} gives {outs[:2]}", key=f"remainder guard {tag}")
+
+
 def run(ctx):
     if ctx.want("R11h"):
         r11h(ctx)
     if ctx.want("R11i"):
         r11i(ctx)
+    if ctx.want("R11j"):
+        r11j(ctx)
     if ctx.want("R13h"):
         c13.r13h(ctx)
     if ctx.want("R13d"):
